@@ -720,6 +720,9 @@ func runFrame(fr *frame) {
 		if re, ok := p.(runtime.Error); ok && isEngineTypeError(re) {
 			panic(engineAbort{"unsupported", re.Error() + " at " + fr.where()})
 		}
+		if _, ok := p.(runtime.Error); ok && os.Getenv("GOSYM_PANIC_DEBUG") != "" {
+			fmt.Fprintf(os.Stderr, "target runtime error %v in %s\n", p, fr.where())
+		}
 		fr.i.stack = fr.i.stack[:fr.depth+1]
 		fr.panicking = true
 		fr.panic = p
